@@ -507,7 +507,7 @@ def stage(o, tier, seed):
     r = vlib.rng(seed, "vapirouter-conc")
     sch = [s for s in (concretise(r, c) for c in cases) if s]
     if thorough:
-        for k in range(2):
+        for k in range(5):              # five more drawings of the literals / forks
             sch += [s for s in (concretise(r, c) for c in cases) if s]
     r.shuffle(sch)                      # neighbours in flight together are unrelated
     # a call that blocks until the request timeout takes 10 s of wall time: a few of them, last (in flight together)
